@@ -928,6 +928,47 @@ fn body(a: &mut Adv, thorough: bool, h_udp: SocketHandle) -> Result<(), Violatio
                 guard("tcp::close", || s.close())?;
             }
         }
+        // ---- now and then a *valid* large datagram arriving as proper IPv4 fragments, sized around the
+        // reassembly / fragmentation buffer and MTU boundaries: the reply (echo reply, port unreachable)
+        // has to go back through the egress fragmentation path
+        if a.medium != Medium::Ieee802154 && a.v4.is_some() && a.tape.draw(24) == 23 {
+            let (v, p) = (a.v4.unwrap(), a.p4);
+            let len = match a.tape.draw(5) {
+                0 => a.tape.range(1440, 1540) as usize,
+                1 => a.tape.range(1465, 1500) as usize,
+                2 => a.node.dev.mtu.saturating_sub(60) + a.tape.draw(80) as usize,
+                3 => a.tape.range(500, 3000) as usize,
+                _ => a.tape.range(1400, 1480) as usize,
+            };
+            let data = rnd_bytes(a.tape, len);
+            let l4 = match a.tape.draw(3) {
+                0 => (P_UDP, enc_udp(&p, &v, 4000, *a.tape.pick(&[7000u16, 9]), &data)),
+                _ => (P_ICMP, enc_icmp(false, &p, &v, 8, 0, [0x44, 0x44, 0, 7], &data)),
+            };
+            let fsz = *a.tape.pick(&[1480usize, 1000, 512, 256, 64, 8]);
+            let ident = 0x7000 + a.tape.draw(256) as u16;
+            let mut frags = vec![];
+            let mut off = 0;
+            while off < l4.1.len() {
+                let end = (off + fsz).min(l4.1.len());
+                let o = V4Opts { ident, df: false, mf: end < l4.1.len(), frag_off: off, tos: 0 };
+                frags.push(enc_ipv4(p.v4(), v.v4(), l4.0, 64, &o, &l4.1[off..end]));
+                off = end;
+            }
+            if a.tape.draw(4) == 0 {
+                frags.reverse();
+            }
+            a.stats.inc("adv.valid-fragmented-datagrams");
+            for f in frags {
+                let fr = a.wrap(f, false);
+                a.stats.inc("adv.frames");
+                a.deliver(fr, true)?;
+            }
+            if a.tape.draw(2) == 0 {
+                a.poll()?;
+            }
+            continue;
+        }
         // ---- one adversarial frame
         let kind = a.tape.draw(12);
         let mut frame: Vec<u8> = if kind == 0 && a.medium == Medium::Ethernet {
